@@ -6,6 +6,7 @@ import (
 	"math/rand"
 	"os"
 	"path/filepath"
+	"strings"
 	"sync"
 	"testing"
 
@@ -86,6 +87,10 @@ func TestDrive(t *testing.T) {
 		dir, _ := os.MkdirTemp(base, "c")
 		path := filepath.Join(dir, "sub", "config.json")
 		init := initialDocs[rng.Intn(len(initialDocs))]
+		if h > count && rng.Intn(2) == 0 {
+			// a large document makes every save slow, so that concurrent saves overlap
+			init = `{"auths":{"a.io":{"auth":"dTpw","blob":"` + strings.Repeat("x", 1<<20) + `"},"b.io:5000":{"auth":"dTpw"}}}`
+		}
 		if init != "" {
 			os.MkdirAll(filepath.Dir(path), 0o755)
 			os.WriteFile(path, []byte(init), 0o644)
@@ -164,11 +169,14 @@ func TestDrive(t *testing.T) {
 			close(start)
 			wg.Wait()
 			nops += n
-			// make sure the file was written at least once so that the mode can be judged
-			st.Put(ctx, "z.io", creds[0])
-			ops = append(ops, map[string]any{"op": "put", "addr": "z.io", "cred": cj(creds[0]), "userchars": vh.Chars(creds[0].Username), "res": "ok", "got": cj(auth.Credential{})})
+			wrote := false
+			for _, o := range ops {
+				if o["op"] == "put" && o["res"] == "ok" {
+					wrote = true
+				}
+			}
 			doc, _, parses, mode := ReadDoc(path)
-			tr.Emit(map[string]any{"e": "conc", "ops": ops, "doc": doc, "parses": parses, "mode": mode})
+			tr.Emit(map[string]any{"e": "conc", "ops": ops, "doc": doc, "parses": parses, "mode": mode, "written": wrote})
 		}
 		os.RemoveAll(dir)
 	}
